@@ -7,7 +7,7 @@ man = json.load(open('MANIFEST.json'))
 jsonschema.validate(man, json.load(open('/root/.vp/MANIFEST.schema.json')))
 sch = json.load(open('/root/.vp/EVIDENCE.schema.json'))
 bad = 0
-for c in man['checks']:
+for c in man["checks"]:
     ev = c['evidence_file']
     if os.path.exists(ev):
         os.unlink(ev)
